@@ -23,6 +23,15 @@ pub fn base_files(tier: Tier) -> Vec<(String, XzFile)> {
     for (nb, check, sizes, pad) in [(1, 1, false, 0), (1, 4, true, 1), (2, 1, true, 0), (3, 4, false, 2), (1, 0, true, 0), (2, 0, false, 1), (0, 1, false, 0)] {
         v.push((format!("{} block(s) check {} size-fields {} extra-pad {}", nb, check, sizes, pad), mk(nb, check, sizes, pad)));
     }
+    for (cs, us, check) in [(true, false, 1u8), (false, true, 4u8), (false, true, 1u8)] {
+        let blocks: Vec<Block> = (0..2)
+            .map(|b| {
+                let (p, plain) = payload(b % 3, (b + 2) % 4, b * 3 + check as usize);
+                Block { payload: p, plain, with_csize: cs, with_usize: us, ..Default::default() }
+            })
+            .collect();
+        v.push((format!("2 block(s) check {} csize-field {} usize-field {}", check, cs, us), XzFile { check_id: check, blocks, ..Default::default() }));
+    }
     if tier == Tier::Thorough {
         let kinds: Vec<(bool, bool, usize)> = vec![(false, false, 0), (true, false, 0), (false, true, 1), (true, true, 0), (false, false, 3), (true, true, 6)];
         for (a, ka) in kinds.iter().enumerate() {
@@ -163,6 +172,36 @@ pub fn field_mutants(f: &XzFile) -> Vec<(String, XzFile)> {
                 let mut g = f.clone();
                 g.o_records = Some(rs);
                 out.push((format!("index record {} {} {} := {}", bi, if which == 0 { "unpadded size" } else { "uncompressed size" }, t, v), g));
+            }
+        }
+    }
+    // compensating changes of two index fields (sums and count unchanged): records swapped, k moved between records
+    for i in 0..recs.len() {
+        for j in (i + 1)..recs.len() {
+            let enc = |rs: &Vec<(u64, u64)>| -> Vec<(Vec<u8>, Vec<u8>)> { rs.iter().map(|(a, b)| (mbi(*a), mbi(*b))).collect() };
+            if recs[i] != recs[j] {
+                let mut rs = recs.clone();
+                rs.swap(i, j);
+                let mut g = f.clone();
+                g.o_records = Some(enc(&rs));
+                out.push((format!("index records {} and {} swapped", i, j), g));
+            }
+            for which in 0..2 {
+                for k in [1u64, 4] {
+                    let mut rs = recs.clone();
+                    if which == 0 {
+                        if rs[i].0 <= k { continue; }
+                        rs[i].0 -= k;
+                        rs[j].0 += k;
+                    } else {
+                        if rs[i].1 < k { continue; }
+                        rs[i].1 -= k;
+                        rs[j].1 += k;
+                    }
+                    let mut g = f.clone();
+                    g.o_records = Some(enc(&rs));
+                    out.push((format!("index: {} moved from record {} to record {} ({})", k, i, j, if which == 0 { "unpadded sizes" } else { "uncompressed sizes" }), g));
+                }
             }
         }
     }
